@@ -66,7 +66,8 @@ def interleave(progs, seed, count, nconn=2):
     return out
 
 
-def run_writer_check(pid, tier, groups, bset=REAL_B, assumptions=(), level="model_checking"):
+def run_writer_check(pid, tier, groups, bset=REAL_B, assumptions=(), level="model_checking", extra=None):
+    """extra: optional callable() -> (violation paths, coverage dict) whose results are merged (e.g. the concurrency part)."""
     """groups: list of dicts(mc=(module,cfg), max_progs, mult, allk, kinds, force, filt, inter=(count,nconn))."""
     t0 = time.time()
     seed = core.seed()
@@ -147,6 +148,14 @@ def run_writer_check(pid, tier, groups, bset=REAL_B, assumptions=(), level="mode
                     + (" and executed once per write-side transport operation index and fault kind (fault enumeration)" if allk else ""),
                samples=samples, exhaustive=(total <= len(progs)), abstract_programs_total=total,
                mc_configs=["%s/%s" % m for m in mcs])
+    if extra:
+        v2, cov2, _ = extra()
+        violations += v2
+        cov["concurrency"] = cov2
+        cov["states"] += cov2.get("states", 0)
+        cov["transitions"] += cov2.get("transitions", 0)
+        cov["traces_validated_against_impl"] += cov2.get("traces_validated_against_impl", 0)
+        cov["samples"] += cov2.get("samples", [])[:1]
     core.write_evidence(pid, tier, level, cov, time.time() - t0, len(violations), list(assumptions))
     for v in violations:
         print("VIOLATION property=%s replay=%s" % (pid, v), flush=True)
